@@ -1,7 +1,7 @@
 (* QueryAddr.v — what a filter over a query in disjunctive form selects, from the path text: the members for which some
    conjunction has all its basic queries true — an existence test is true when its steps reach something, its negation when
    they reach nothing, a comparison when the number reached stands in the relation (!= : when not ==). *)
-From JP Require Import Peg Grammar Slice Text Tree Actions Json Eval WF Spec SortFacts EvalInv1 EvalInv4 EvalTop EndToEnd Codec KeyDefs KeyParse IdxParse SliceParse UnionParse WildParse RecParse ChainParse SpacePath FunParse AggParse FiltParse CmpParse NegFilt LitParse RootOp RegexOp QueryParse ChainAddr FunAddr AggAddr FiltAddr CmpAddr SpecRootFree.
+From JP Require Import Peg Grammar Slice Text Tree Actions Json Eval WF Spec SortFacts EvalInv1 EvalInv4 EvalTop EndToEnd Codec KeyDefs KeyParse IdxParse SliceParse UnionParse WildParse RecParse ChainParse SpacePath FunParse AggParse FiltParse CmpParse NegFilt LitParse RootOp RegexOp QueryParse QueryTree ChainAddr FunAddr AggAddr FiltAddr CmpAddr SpecRootFree.
 From Coq Require Import Lia.
 Open Scope list_scope.
 
@@ -64,6 +64,15 @@ Section QueryAddr.
     end.
   Definition dnf_test (root : value) (vals : list value) (d : list (list bq)) (v : value) : bool :=
     existsb (fun c => forallb (fun b => bq_test root vals b v) c) d.
+
+  (* a query with parenthesised sub-queries: the parentheses only group *)
+  Fixpoint qt_test (root : value) (vals : list value) (t : qt) (v : value) : bool :=
+    match t with
+    | TB b => bq_test root vals b v
+    | TP q => qt_test root vals q v
+    | TA l r => qt_test root vals l v && qt_test root vals r v
+    | TO l r => qt_test root vals l v || qt_test root vals r v
+    end.
 
   Lemma bq_ok_steps b : bq_ok b = true -> forallb rstep_ok (match b with BE i | BN i | BC i _ _ | BL i _ _ | BRE i | BRN i | BCR i _ _ | BPQ i _ _ | BX i _ => i end) = true.
   Proof.
@@ -376,5 +385,26 @@ Section QueryAddr.
   Proof.
     intros Hd Hr Hsm. unfold fq_kind. apply (sp_kfilter_l ffun afun regex_match _ (fun vals => dnf_test root vals d)); [|exact Hsm].
     intros vals Hv. apply holds_dnf; assumption.
+  Qed.
+
+  Lemma holds_qt t root vals : qt_leaves bq_ok t = true -> small root -> Forall small vals ->
+    holds (qt_query cfg parse_float t) root vals = map (qt_test root vals t) vals.
+  Proof.
+    intros Hs Hr Hv. induction t as [b|q IH|l IHl r IHr|l IHl r IHr]; cbn [qt_leaves qt_query qt_test] in *.
+    - apply holds_bq; assumption.
+    - apply IH. exact Hs.
+    - apply andb_true_iff in Hs. destruct Hs as [Sl Sr].
+      change (holds (QAnd ?a ?b) root vals) with (andb_lists (holds a root vals) (holds b root vals)).
+      rewrite (IHl Sl), (IHr Sr). apply andb_lists_map.
+    - apply andb_true_iff in Hs. destruct Hs as [Sl Sr].
+      change (holds (QOr ?a ?b) root vals) with (orb_lists (holds a root vals) (holds b root vals)).
+      rewrite (IHl Sl), (IHr Sr). apply orb_lists_map.
+  Qed.
+  Lemma sp_ft t b next root p v : qt_leaves bq_ok t = true -> small root -> small v ->
+    sp (Node (ft_kind cfg parse_float t) b next) root (Some p, v) =
+    flat_map (ChainAddr.fwd ffun afun regex_match b next root) (navp (qt_test root (kids v) t) (p, v)).
+  Proof.
+    intros Hd Hr Hsm. unfold ft_kind. apply (sp_kfilter_l ffun afun regex_match _ (fun vals => qt_test root vals t)); [|exact Hsm].
+    intros vals Hv. apply holds_qt; assumption.
   Qed.
 End QueryAddr.
